@@ -6,6 +6,7 @@ import (
 	"bytes"
 	"context"
 	"errors"
+	"net"
 	"net/netip"
 	"os"
 	"sync/atomic"
@@ -23,6 +24,7 @@ import (
 type natUplinkMmsg struct {
 	clientName     string
 	clientAddrPort netip.AddrPort
+	state          *atomic.Pointer[net.UDPConn]
 	natConn        *conn.MmsgWConn
 	natConnSendCh  <-chan *natQueuedPacket
 	natConnPacker  zerocopy.ClientPacker
@@ -327,6 +329,7 @@ func (s *UDPNATRelay) recvFromServerConnRecvmmsg(ctx context.Context, lnc *udpRe
 						s.relayServerConnToNatConnSendmmsg(ctx, natUplinkMmsg{
 							clientName:     clientInfo.Name,
 							clientAddrPort: clientAddrPort,
+							state:          &entry.state,
 							natConn:        natConn.NewWConn(),
 							natConnSendCh:  natConnSendCh,
 							natConnPacker:  clientSession.Packer,
@@ -495,6 +498,13 @@ main:
 				zap.Duration("natTimeout", uplink.natTimeout),
 				zap.Error(err),
 			)
+		}
+
+		// Stop swaps the session state before it forces natConn's read deadline into the past.
+		// If that happened while we were sending, the deadline set above has overwritten Stop's,
+		// and the downlink goroutine would sleep for a whole NAT timeout. Re-check and force it again.
+		if uplink.state.Load() != uplink.natConn.UDPConn {
+			_ = uplink.natConn.SetReadDeadline(conn.ALongTimeAgo)
 		}
 
 		qpvecn := qpvec[:count]
